@@ -51,3 +51,71 @@ def check_fork_join(ck, tu, fn, tag):
         ck.ok("FORK-JOIN", tag, "threads[i] started for i in [0, %s) and all joined before the result is used" % rs[2])
         ck.ok("INDEX-BY-COPY", tag, "worker lambda captures the loop index by copy")
     return tu.by_did.get(lam.get("fn")), rs[0] if rs else None
+
+
+STD_ORDER_ALGOS = ("lower_bound", "upper_bound", "equal_range", "binary_search", "sort", "stable_sort", "partial_sort", "nth_element",
+                   "merge", "inplace_merge", "min_element", "max_element", "minmax_element", "is_sorted", "includes",
+                   "push_heap", "pop_heap", "make_heap", "sort_heap", "min", "max", "lexicographical_compare")
+
+
+def comparator_sources(fn, comp_did):
+    """declaration ids that carry the caller's order: the comparator parameter and locals constructed from it"""
+    src = {comp_did}
+    changed = True
+    while changed:
+        changed = False
+        for v in fn.nodes():
+            if v["k"] == "VarDecl" and v.get("did") not in src and kids(v):
+                if any(x["k"] == "DeclRefExpr" and x["ref"]["id"] in src for x in ir.walk(kids(v)[0])):
+                    src.add(v["did"])
+                    changed = True
+    return src
+
+
+def check_comp_threaded_all(ck, tu, prefixes):
+    """COMP-THREADED for every function (and lambda) below the given namespaces that has the caller's comparator in scope"""
+    n = 0
+    for fn in tu.functions:
+        if fn.body is None or not any(fn.qname.startswith(p) for p in prefixes):
+            continue
+        has = [p for p in fn.params if p["name"] == "comp"] or \
+            [x for x in fn.nodes() if x["k"] == "DeclRefExpr" and x["ref"]["name"] == "comp"]
+        if not has:
+            continue
+        tag = "%s<%s>" % (fn.name if fn.kind != "lambda" else "lambda in " + fn.qname.split("::")[-2 if "::" in fn.qname else 0],
+                          ",".join(a[:18] for a in (fn.targs or [])[:2]))
+        n += check_comp_threaded(ck, fn, tag)
+    return n
+
+
+def check_comp_threaded(ck, fn, tag):
+    """every ordering algorithm of the standard library called on the user's elements receives the user's order"""
+    comp = [p["did"] for p in fn.params if p["name"] == "comp"]
+    if not comp:
+        comp = list({x["ref"]["id"] for x in fn.nodes() if x["k"] == "DeclRefExpr" and x["ref"]["name"] == "comp"})
+    if not comp:
+        raise ir.AnalysisBroken("%s: comparator not found" % fn.full)
+    src = set()
+    for c in comp:
+        src |= comparator_sources(fn, c)
+    n = 0
+    for z in fn.nodes():
+        if "callee" not in z or not z["callee"]["qname"].startswith("std::") or z["callee"]["name"] not in STD_ORDER_ALGOS:
+            continue
+        if z.get("member_call"):
+            continue
+        # calls on plain integers (std::min of two sizes) do not order user elements
+        argtys = [(a.get("ty") or "") for a in kids(z)]
+        if z["callee"]["name"] in ("min", "max") and all(("long" in t or "int" in t) and "iterator" not in t for t in argtys):
+            continue
+        n += 1
+        uses = any(x["k"] == "DeclRefExpr" and x["ref"]["id"] in src for a in kids(z) for x in ir.walk(a))
+        if not uses:
+            ck.violation("COMP-THREADED", fn.qname, "%s:%s" % (tag, z["callee"]["name"]),
+                         "std::%s() is called without the caller's comparator and falls back to operator<: with any other order (std::greater, "
+                         "key projections) the position it returns is meaningless" % z["callee"]["name"], fn.nloc(z))
+        else:
+            ck.ok("COMP-THREADED", "%s std::%s" % (tag, z["callee"]["name"]), "receives the caller's order", nontrivial=False)
+    return n
+
+
